@@ -968,8 +968,21 @@ def rule_plumbing(check):
     ret = [hir.peel(r) for r in return_exprs(rw.body)]
     check.expect(len(me) >= 1 and me[0] in ret, R, R + "/map_err", hir.loc(rw.rec), "Err(e) -> JsError", "the wasm entry point does not map rewrite errors to JsError")
     es = prog.fn("rewriter::extract_source_map")
+    # a missing / unreadable / undecodable map is "no map", never an error of the rewrite: the function cannot
+    # hand an error back (its result type carries none) and every Result it obtains is consumed by `.ok()` or
+    # by a match / if-let that has an arm for the failure (panicking consumers are PANIC's business)
+    ret_ = es.rec.get("ret") or ""
     oks = [n for g, n in prog.flat_calls(es, name="ok")]
-    check.expect(len(oks) >= 1, R, R + "/extract-errors-to-none", hir.loc(es.rec), "decode/read errors are turned into None with .ok()", "extract_source_map no longer turns read/decode errors into None")
+    handled = list(oks)
+    for n in hir.walk_no_closure(es.body):
+        sc = None
+        if n.get("k") == "Match" and not (n.get("source") or "").startswith(("ForLoop", "TryDesugar")):
+            sc = n.get("scrut")
+        elif n.get("k") == "LetCond":
+            sc = n.get("init")
+        if sc is not None and "result::Result<" in ((hir.peel(sc).get("ty") or "")):
+            handled.append(n)
+    check.expect("Result<" not in ret_ and len(handled) >= 1, R, R + "/extract-errors-to-none", hir.loc(es.rec), "decode/read errors end as None (%d consuming sites, result type %s)" % (len(handled), ret_[:60]), "extract_source_map no longer turns read/decode errors into None")
 
 
 def run(check):
